@@ -112,7 +112,7 @@ func mkTextConf(r *Rand, infix bool) textConf {
 
 // a random literal-rich tree for the text layer (strings with spaces, brackets, semicolons, backslashes, line breaks, non-ASCII)
 var strLits = []string{"", "a", "a b", "x(y", "p)q", "s;t", `b\n`, "line\nbreak", "tab\there", "é λ", "[z]", "a,b", "  lead", "trail  ", `C:\tmp\`, "中文", "1 2 3", "(", ";", "\\",
-	`C:\\temp\\new`, `\\\\`, `a\\tb`, `q\\"`[:3], `\u00e9`, "100% c", "%d %s %v", "50%", "%", "%%", "%!", "{}", "$1", "'q'", "`bt`", "#", "a\rb", "\x00z", "~", "&amp;", "<nil>", "true", "-5", "+", "!x"}
+	`C:\\temp\\new`, `\\\\`, `a\\tb`, `q\\"`[:3], `\u00e9`, "100% c", "%d %s %v", "50%", "%", "%%", "%!", "{}", "$1", "'q'", "`bt`", "#", "a\rb", "\x00z", "~", "&amp;", "<nil>", "true", "-5", "+", "!x", "Dear user, \nwelcome", "tab\t\nnext", "cr \r\nlf", "nbsp\u00a0\n\n x", " \n", "end \n"}
 
 func textTree(r *Rand, d int) *GT {
 	if d <= 0 || r.Intn(4) == 0 {
@@ -250,6 +250,22 @@ func genText(c *RunCtx, prop string) []*Batch {
 			// an `if` at the root (and else-if chains) over integer variables: the branches are two-leaf operators
 			// (fast operators when that optimisation is on), literals, or further ifs
 			t = ifChain(r, 1+r.Intn(3))
+		}
+		if prop == "C13" && k%6 == 2 {
+			// calls without operands as operands of two-operand operators (an operand-less call is NOT a leaf: with fast
+			// evaluation on it must still be called), compared with a value it can silently differ from
+			z := func() *GT { return gop([]string{"c_now", "c_sum", "c_yes", "c_no"}[r.Intn(4)]) }
+			lf := func() *GT {
+				return []*GT{gconst(int64(42)), gconst(int64(0)), gvar("i0"), gconst(true), gconst("c_now"), z()}[r.Intn(6)]
+			}
+			cmp := func() *GT {
+				x, y := z(), lf()
+				if r.Bool() {
+					x, y = y, x
+				}
+				return gop([]string{"=", "==", "!=", "eq", "ne", "+", "<", "in"}[r.Intn(8)], x, y)
+			}
+			t = []*GT{cmp(), gop(pick(r, andNames), cmp(), cmp()), gif(cmp(), cmp(), gconst("else")), gop("c_first", cmp(), gvar("b0"))}[r.Intn(4)]
 		}
 		tcP := mkTextConf(r, false)
 		src := t.Src()
